@@ -13,11 +13,7 @@ Import ListNotations.
 Open Scope Z_scope.
 Open Scope list_scope.
 
-Definition def_cf (d : def) : bool := ctx_cf (dctx d) && stmt_cf (dbody d).
-Definition cf_frag (p : prog) : bool := forallb def_cf (pdefs p).
-(* type names, like definition names, do not start with '#' (their labels are subject to asm_wf's uniqueness check) *)
-Definition plain_types (p : prog) : bool :=
-  forallb (fun d => negb (is_hash_label (label_of_type_name (show_ident (tname d))))) (ptypes p).
+(* def_cf, cf_frag, plain_types: Proof/SimFrag.v *)
 
 Section MainCf.
 Variable im : image.
